@@ -867,8 +867,8 @@ func C02() *check.Property {
 	return &check.Property{
 		ID:       "C02",
 		Title:    "Serialized delivery: an observer's callbacks never overlap",
-		Patterns: cat(CorePatterns, PluginPkgs, []string{PromPkg}, RatePkgs),
-		Scope:    []string{ro},
+		Patterns: cat(CorePatterns, PluginPkgs, IOPluginPkgs, []string{PromPkg}, RatePkgs),
+		Scope:    append([]string{ro}, IOPluginPkgs...),
 		Rules:    []check.Rule{ruleMultiProducerSafe(), ruleNoDowngrade(), ruleModeTable(), ruleLockRegion(), ruleSubjectBroadcastLocked(), ruleWrap()},
 		Explanation: "Static argument in five structural premises. (1) LOCK-REGION: every delivery of a subscriber happens inside the lock region of its producer lock (CFG lock-set data-flow). " +
 			"(2) MODE-TABLE: that lock is a real mutex exactly for safe/eventually-safe observables (constructor delegation chains, the mode switch and the xsync mutexes are checked, not trusted by name). " +
